@@ -139,7 +139,7 @@ def rule_cast_extract(ctx):
         return
     fn = prog.fn("transforms", "json_extract_cast_as_varchar")
     loc = prog.mod("transforms").loc(fn)
-    for target in ("VARCHAR", "TEXT"):
+    for target in ("VARCHAR", "TEXT", "BOOLEAN", "DATE", "BIGINT"):
         runs = []
 
         def run(I, target=target):
@@ -159,5 +159,6 @@ def rule_cast_extract(ctx):
             ctx.ob("C11.d", f"(v:a)::{target} extracts the string (->>) before the cast", ok, loc, "" if ok else str(r))
             if not ok:
                 ctx.violation("C11.d", "transforms", "json_extract_cast_as_varchar", f"(v:a)::{target}", loc,
-                              f"casting a JSON extraction to {target}: {r} — extracted strings must lose their JSON quotes exactly when converted to text")
+                              f"casting a JSON extraction to {target}: {r} — the value is converted from the extracted string itself (->>), not from its "
+                              f"JSON rendering: `\"1\"` (with its quotes) is not a {target}")
             break
